@@ -152,6 +152,38 @@ static void run_conc_test(int test, int T, long long N) {
 	for (i = 0; i < T; i++) if (test <= 1 || test == 9) free(tk_log[i]);
 }
 
+/* many short races to zero: each round the counter starts at T*per and T threads released together decrement it to zero; exactly one TRUE per round */
+static volatile pint rr_ref; static volatile long long rr_round_go, rr_done; static long long rr_rounds; static int rr_T, rr_per; static volatile long long rr_true[MAXT];
+static long long st_rr_rounds, st_rr_bad_rounds;
+static void *rr_fn(void *a) {
+	int id = (int)(intptr_t)a; long long rd; int j;
+	for (rd = 1; rd <= rr_rounds; rd++) {
+		while (__atomic_load_n(&rr_round_go, __ATOMIC_ACQUIRE) < rd) ;
+		for (j = 0; j < rr_per; j++) if (p_atomic_int_dec_and_test(&rr_ref)) rr_true[id]++;
+		__atomic_add_fetch(&rr_done, 1, __ATOMIC_ACQ_REL);
+	}
+	return NULL;
+}
+static void run_refcount_rounds(int T, int per, long long rounds) {
+	pthread_t th[MAXT]; int i; long long rd, prev = 0;
+	scen = "refcount-rounds"; rr_T = T; rr_per = per; rr_rounds = rounds; rr_round_go = 0; rr_done = 0;
+	for (i = 0; i < T; i++) rr_true[i] = 0;
+	for (i = 0; i < T; i++) pthread_create(&th[i], NULL, rr_fn, (void *)(intptr_t)i);
+	for (rd = 1; rd <= rounds; rd++) {
+		long long tot = 0;
+		rr_ref = (pint)(T * per);
+		__atomic_store_n(&rr_round_go, rd, __ATOMIC_RELEASE);
+		while (__atomic_load_n(&rr_done, __ATOMIC_ACQUIRE) < rd * T) ;
+		for (i = 0; i < T; i++) tot += rr_true[i];
+		if (tot - prev != 1) { st_rr_bad_rounds++; if (st_rr_bad_rounds == 1) viol("dec-and-test-result", "round %lld: %lld of %d racing decrements to zero returned TRUE (exactly one reaches zero)", rd, tot - prev, T * per); }
+		if (rr_ref != 0 && st_rr_bad_rounds < 2) viol("final-value", "counter is %d after %d decrements from %d", rr_ref, T * per, T * per);
+		prev = tot; st_rr_rounds++;
+		if (vh_nviol >= vh_max_viol) { __atomic_store_n(&rr_round_go, rounds + 1, __ATOMIC_RELEASE); break; }
+	}
+	for (i = 0; i < T; i++) pthread_join(th[i], NULL);
+	st_conc_ops += (long long)T * per * st_rr_rounds;
+}
+
 /* ------------------------------------------------ litmus ------------------------------------------------ */
 static long long st_sb_rounds, st_sb_00, st_sb_01, st_sb_10, st_sb_11, st_mp_rounds;
 #define LN 4096
@@ -206,10 +238,10 @@ int main(int argc, char **argv) {
 	skip_overflow = vh_flag(argc, argv, "--skip-overflow");
 	p_libsys_init();
 	if (!strcmp(mode, "value")) run_value(&r, n);
-	else if (!strcmp(mode, "conc")) { for (t = 0; t < 10 && vh_nviol < vh_max_viol; t++) run_conc_test(t, T, n); }
+	else if (!strcmp(mode, "conc")) { for (t = 0; t < 10 && vh_nviol < vh_max_viol; t++) run_conc_test(t, T, n); if (T <= 16) { run_refcount_rounds(T < 2 ? 2 : (T > 4 ? 4 : T), 1, n / 4 + 100); run_refcount_rounds(2, 2, n / 4 + 100); } }
 	else { run_sb(n); run_mp(n / 4); }
 	p_libsys_shutdown();
-	printf("{\"ev\":\"stats\",\"mode\":\"%s\",\"model\":\"%s\",\"value_cases\":%lld,\"exhaustive_pairs\":%lld,\"conc_ops\":%lld,\"threads\":%d,\"sb_rounds\":%lld,\"sb_outcomes\":[%lld,%lld,%lld,%lld],\"mp_rounds\":%lld,\"viol\":%d,\"wall\":%.2f}\n",
-	       mode, VH_MODEL, st_value_cases, st_pairs_exhaustive, st_conc_ops, T, st_sb_rounds, st_sb_00, st_sb_01, st_sb_10, st_sb_11, st_mp_rounds, vh_nviol, vh_now() - t0);
+	printf("{\"ev\":\"stats\",\"mode\":\"%s\",\"model\":\"%s\",\"value_cases\":%lld,\"exhaustive_pairs\":%lld,\"conc_ops\":%lld,\"refcount_rounds\":%lld,\"threads\":%d,\"sb_rounds\":%lld,\"sb_outcomes\":[%lld,%lld,%lld,%lld],\"mp_rounds\":%lld,\"viol\":%d,\"wall\":%.2f}\n",
+	       mode, VH_MODEL, st_value_cases, st_pairs_exhaustive, st_conc_ops, st_rr_rounds, T, st_sb_rounds, st_sb_00, st_sb_01, st_sb_10, st_sb_11, st_mp_rounds, vh_nviol, vh_now() - t0);
 	return 0;
 }
